@@ -24,6 +24,7 @@ type application struct {
 }
 
 func (a *application) start(mode gen.ApplicationMode, options gen.ApplicationOptionsExtra) error {
+	lib.VerifPoint("app.start.cas", a)
 	if swapped := atomic.CompareAndSwapInt32(&a.state,
 		int32(gen.ApplicationStateLoaded), int32(gen.ApplicationStateRunning)); swapped == false {
 		if atomic.LoadInt32(&a.state) == int32(gen.ApplicationStateRunning) {
@@ -61,16 +62,19 @@ func (a *application) start(mode gen.ApplicationMode, options gen.ApplicationOpt
 
 		opts.Args = item.Args
 
+		lib.VerifPoint("app.start.spawn", a)
 		pid, err := a.node.spawn(item.Factory, opts)
 		if err != nil {
 			a.group.Range(func(pid gen.PID, _ bool) bool {
 				a.node.Kill(pid)
 				return true
 			})
+			lib.VerifPoint("app.start.rollback", a)
 			atomic.StoreInt32(&a.state, int32(gen.ApplicationStateLoaded))
 			return err
 		}
 
+		lib.VerifPoint("app.start.store", a)
 		a.group.Store(pid, true)
 	}
 
@@ -92,6 +96,7 @@ func (a *application) start(mode gen.ApplicationMode, options gen.ApplicationOpt
 		}()
 	}
 
+	lib.VerifPoint("app.start.cb", a)
 	a.behavior.Start(mode)
 	a.registerAppRoute()
 
@@ -99,9 +104,11 @@ func (a *application) start(mode gen.ApplicationMode, options gen.ApplicationOpt
 }
 
 func (a *application) stop(force bool, timeout time.Duration) error {
+	lib.VerifPoint("app.stop.cas", a)
 	if swapped := atomic.CompareAndSwapInt32(&a.state,
 		int32(gen.ApplicationStateRunning),
 		int32(gen.ApplicationStateStopping)); swapped == false {
+		lib.VerifPoint("app.stop.load", a)
 		state := atomic.LoadInt32(&a.state)
 		if state == int32(gen.ApplicationStateLoaded) {
 			return nil // already stopped
@@ -118,7 +125,10 @@ func (a *application) stop(force bool, timeout time.Duration) error {
 	a.registerAppRoute() // new state of the app
 
 	// update mode to prevent triggering 'permantent' mode
+	lib.VerifPoint("app.stop.mode", a)
 	a.mode = gen.ApplicationModeTemporary
+
+	lib.VerifPoint("app.stop.tell", a)
 
 	a.group.Range(func(pid gen.PID, _ bool) bool {
 		if force {
@@ -129,12 +139,14 @@ func (a *application) stop(force bool, timeout time.Duration) error {
 		return true
 	})
 
+	lib.VerifPoint("app.stop.reason", a)
 	if force {
 		a.reason = gen.TerminateReasonKill
 	} else {
 		a.reason = gen.TerminateReasonShutdown
 	}
 
+	lib.VerifPoint("app.stop.wait", a)
 	select {
 	case <-a.stopped:
 		return nil
@@ -144,21 +156,26 @@ func (a *application) stop(force bool, timeout time.Duration) error {
 }
 
 func (a *application) terminate(pid gen.PID, reason error) {
+	lib.VerifPoint("app.term.delete", a)
 	if _, exist := a.group.LoadAndDelete(pid); exist == false {
 		// it was started as a child process somewhere deep in the supervision tree
 		// do nothing.
 		return
 	}
 
+	lib.VerifPoint("app.term.mode", a)
 	switch a.mode {
 	case gen.ApplicationModePermanent:
+		lib.VerifPoint("app.term.stopping", a)
 		state := atomic.SwapInt32(&a.state, int32(gen.ApplicationStateStopping))
 		if state == int32(gen.ApplicationStateStopping) {
 			// already in stopping
 			break
 		}
 		a.node.Log().Info("application %s (%s) will be stopped due to termination of %s with reason: %s", a.spec.Name, a.mode, pid, reason)
+		lib.VerifPoint("app.term.reason", a)
 		a.reason = reason
+		lib.VerifPoint("app.term.tell", a)
 		a.group.Range(func(pid gen.PID, _ bool) bool {
 			a.node.SendExit(pid, gen.TerminateReasonShutdown)
 			return true
@@ -170,12 +187,15 @@ func (a *application) terminate(pid gen.PID, reason error) {
 		}
 		a.node.Log().Info("application %s (%s) will be stopped due to termination of %s with reason: %s", a.spec.Name, a.mode, pid, reason)
 
+		lib.VerifPoint("app.term.stopping", a)
 		state := atomic.SwapInt32(&a.state, int32(gen.ApplicationStateStopping))
 		if state == int32(gen.ApplicationStateStopping) {
 			// already in stopping
 			break
 		}
+		lib.VerifPoint("app.term.reason", a)
 		a.reason = reason
+		lib.VerifPoint("app.term.tell", a)
 		a.group.Range(func(pid gen.PID, _ bool) bool {
 			a.node.SendExit(pid, gen.TerminateReasonShutdown)
 			return true
@@ -184,19 +204,23 @@ func (a *application) terminate(pid gen.PID, reason error) {
 		// do nothing
 	}
 
+	lib.VerifPoint("app.term.len", a)
 	if a.group.Len() > 0 {
 		// waiting for the last application member to be terminated
 		return
 	}
 
+	lib.VerifPoint("app.term.default", a)
 	if a.reason == nil {
 		a.reason = gen.TerminateReasonNormal
 	}
 
+	lib.VerifPoint("app.term.loaded", a)
 	old := atomic.SwapInt32(&a.state, int32(gen.ApplicationStateLoaded))
 	if old == int32(gen.ApplicationStateLoaded) {
 		return
 	}
+	lib.VerifPoint("app.term.close", a)
 	if a.stopped != nil {
 		close(a.stopped)
 	}
@@ -216,6 +240,7 @@ func (a *application) terminate(pid gen.PID, reason error) {
 		}()
 	}
 
+	lib.VerifPoint("app.term.cb", a)
 	a.behavior.Terminate(a.reason)
 
 	network := a.node.Network()
@@ -252,6 +277,7 @@ func (a *application) info() gen.ApplicationInfo {
 }
 
 func (a *application) tryUnload() bool {
+	lib.VerifPoint("app.unload.cas", a)
 	return atomic.CompareAndSwapInt32(&a.state, int32(gen.ApplicationStateLoaded), 0)
 }
 
